@@ -46,14 +46,17 @@ def configs(backends, caches):
 def model_checking(ctx):
     quick = ctx.tier == "quick"
     invs = ["StateOK", "LawsOK"]
-    plan = [(1, 3, 6), (3, 2, 4)] if quick else [(1, 4, 8), (2, 4, 6), (3, 3, 8), (4, 3, 8)]
+    # (key set, depth, workers, Always... option of the interface)
+    plan = [(1, 3, 6, "none"), (3, 2, 4, "none"), (1, 2, 2, "abs"), (1, 2, 2, "rel")] if quick else \
+           [(1, 4, 8, "none"), (2, 4, 6, "none"), (3, 3, 8, "none"), (4, 3, 8, "none"),
+            (1, 3, 4, "abs"), (1, 3, 4, "rel"), (2, 3, 4, "sec"), (2, 3, 4, "cj")]
 
     def job(p):
-        ks, depth, workers = p
+        ks, depth, workers, opt = p
         r = ctx.tlc("RecordStoreGen", cfg_text=vlib.cfg_text(
-            constants={"MaxLen": depth, "Emit": False, "Timed": False, "BfsKeys": ks}, invariants=invs, view="View"),
-            workers=workers, timeout=3000)
-        return "keys%d-depth%d" % (ks, depth), {"states": r.distinct, "transitions": r.generated, "depth": r.depth}
+            constants={"MaxLen": depth, "Emit": False, "Timed": False, "BfsKeys": ks, "BfsOpt": '"%s"' % opt},
+            invariants=invs, view="View"), workers=workers, timeout=3000)
+        return "keys%d-depth%d-%s" % (ks, depth, opt), {"states": r.distinct, "transitions": r.generated, "depth": r.depth}
     return dict(ctx.pmap(job, plan, par=len(plan)))
 
 
@@ -68,7 +71,7 @@ def gen_histories(ctx):
     def gen(k):
         timed, depth, num = plan[k]
         r = ctx.tlc("RecordStoreGen", cfg_text=vlib.cfg_text(
-            constants={"MaxLen": depth, "Emit": True, "Timed": timed, "BfsKeys": 1}), mode="simulate", num=num,
+            constants={"MaxLen": depth, "Emit": True, "Timed": timed, "BfsKeys": 1, "BfsOpt": '"none"'}), mode="simulate", num=num,
             depth=depth + 3, seed=ctx.seed * 101 + k, timeout=1500, count=False)
         return r.emitted()
     scripts = []
@@ -134,10 +137,6 @@ def assign_configs(ctx, scripts):
             sel += fst
         if not quick or i % 3 == 0:
             sel += bad                    # badger opens slowly: a subset in the quick tier
-        if any(st["op"] == "SetRelativeExpiry" for st in s["steps"]):
-            # a relative expiry is (re)armed by every save, and a delayed write is a save at an unknown later moment:
-            # such histories run without the delayed write cache (as the timed histories do)
-            sel = [c for c in sel if c["c"] != "write"]
         s["cfgs"] = [dict(c, cs=cs if c["c"] != "none" else 0) for c in sel]
     return scripts
 
